@@ -52,7 +52,7 @@ func refScalar(agg, vt int, net []octosql.Value) (octosql.Value, bool) {
 	if agg == 0 || agg == 1 {
 		return octosql.NewInt(cnt), true
 	}
-	if vt == VTFloat {
+	if vt == VTFloat || vt == VTTime {
 		return octosql.Value{}, false
 	}
 	switch agg {
@@ -82,11 +82,13 @@ func refScalar(agg, vt int, net []octosql.Value) (octosql.Value, bool) {
 	return octosql.Value{}, false
 }
 
-// VerifC14History: a valid add/retract history of L steps with a non-empty net multiset is fed to
+// VerifC14History: a valid add/retract history of 1..L steps with a non-empty net multiset is fed to
 // the real aggregate AGG (prototype taken from aggregates.Aggregates); its Trigger() must equal
 // the Trigger() of a fresh aggregate of the same kind fed the net multiset once (additions only).
 //
-// Params: L history length; AGG index into AggNames; VT 0 Int / 1 Float / 2 Duration;
+// Params: L maximal history length; AGG index into AggNames; VT 0 Int / 1 Float / 2 Duration /
+// 3 Time (whole seconds 1970..2200, Local or UTC representation; only for the aggregates that have
+// a Time overload: count, count_distinct, max, array_agg, array_agg_distinct);
 // DOM 0 = unrestricted values, > 0 = values in [0, DOM); FDOM = number of FloatSumDomain entries.
 // Float inputs of sum/avg (and their DISTINCT variants) are restricted to the integers of
 // FloatSumDomain (|v| < 2^26, every partial sum exact); for other Float values the float-sum
@@ -99,13 +101,17 @@ func VerifC14History() {
 
 	fdom := zzverif.Param("FDOM")
 
-	hist, net := NDHistory("h", L, vt, vt == VTFloat && isFloatSum(agg), dom, fdom)
+	proto := Prototype(agg, vt)
+	if proto == nil {
+		return // the aggregate has no overload for this value kind
+	}
+	steps := 1 + zzverif.Choice("len", L) // every history length 1..L
+	hist, net := NDHistory("h", steps, vt, vt == VTFloat && isFloatSum(agg), dom, fdom)
 	if len(net) == 0 {
 		return // the property quantifies over non-empty net multisets
 	}
 	zzverif.Reach("non-empty-net")
 
-	proto := Prototype(agg, vt)
 	real := proto()
 	for _, s := range hist {
 		real.Add(s.Retraction, s.Value)
